@@ -420,8 +420,20 @@ func ruleEqShapeBody(c *Ctx, b *Body) {
 		key := fmt.Sprintf("%s: computed verdict #%s uses both operands", name, b.retOrdinal(r))
 		s := a.sidesOf(v)
 		if !s["N"] || !s["O"] {
-			l.add("R-EQSHAPE", b.Name, key, b.posOf(r), Violated, "the returned value is computed from {"+sideList(s)+"}: the answer ignores one of the two values", true)
-			continue
+			// what the value does not look at may have been settled by the branches that lead
+			// here: `if n == nil { return o == nil || … }` uses both
+			both := map[string]bool{"N": s["N"], "O": s["O"]}
+			for _, e := range b.controlDepsTransitive(r.Block()) {
+				if iff, ok := lastInstr(e.From).(*ssa.If); ok {
+					cs := a.sidesOf(iff.Cond)
+					both["N"] = both["N"] || cs["N"]
+					both["O"] = both["O"] || cs["O"]
+				}
+			}
+			if !both["N"] || !both["O"] {
+				l.add("R-EQSHAPE", b.Name, key, b.posOf(r), Violated, "the returned value is computed from {"+sideList(s)+"}, and the branches leading to it do not test the other value either: the answer ignores one of the two values", true)
+				continue
+			}
 		}
 		if f := foreignOf(s); f != "" {
 			l.add("R-EQSHAPE", b.Name, key, b.posOf(r), Violated, "the returned value also depends on "+f, true)
@@ -478,6 +490,11 @@ func ruleEqShapeBody(c *Ctx, b *Body) {
 			}
 			ok1, _ := isCompact(call.Call.Args[0])
 			if !ok1 {
+				return
+			}
+			// a comparison with a fixed text (the literal null) asks for one spelling of one
+			// operand; it does not compare the two values
+			if s2 := a.sidesOf(call.Call.Args[1]); !s2["N"] && !s2["O"] {
 				return
 			}
 			nCmp++
@@ -569,6 +586,11 @@ func ruleEqShapeBody(c *Ctx, b *Body) {
 						}
 						srcs = append(srcs, p)
 						n++
+						// the decoder turns the text null into "" without an error: each side must be
+						// known to be a string before its decoded value is compared
+						if b.firstByteIs(eq, in, bo.Block(), '"') == "" {
+							bad = "the text decoded at " + b.posOf(ci) + " is not known to start with a quote where the decoded strings are compared: the decoder accepts null into a string (leaving it empty) without an error, so \"\" and null would compare equal one way round"
+						}
 					}
 				case ssa.CallInstruction:
 					bad = "the string's address is passed to " + calleeLabel(y.Common())
